@@ -219,8 +219,15 @@ class Parser:
             for t in ip.iter_parse():
                 if t.type == "UNQUOTED_STRING":
                     # Unquoted strings after SYMBOL can only be values, not attributes
+                    last = (
+                        ip.parser_state.value_stack[-1]
+                        if ip.parser_state.value_stack
+                        else None
+                    )
+                    # keywords are case-insensitive, so compare in upper case
                     if (
-                        ip.parser_state.value_stack[-1] == "SYMBOL"
+                        isinstance(last, str)
+                        and last.upper() == "SYMBOL"
                         and t.value.upper() not in SYMBOL_ATTRIBUTES
                     ):
                         t.type = "UNQUOTED_STRING_VALUE"
